@@ -298,8 +298,24 @@ def verify(dm, c, df, order):
             g2 = dm.group.evaluate_new_data(df)
             for tname, t in dm.group.terms.items():
                 check_labels(t.labels, g2[tname], df, order, names, f"re-evaluated group term {tname}", problems, group=True)
+        # a sequence of further batches; categorical columns only declare what occurs in each batch
+        n_ = len(df)
+        has_cat = any(isinstance(df[c_].dtype, pd.CategoricalDtype) for c_ in df.columns)
+        for lo, hi in ((0, n_ // 2), (n_ // 2, n_), (1, n_ // 2 + 1)) if has_cat and n_ <= 20 else ():
+            nd = df.iloc[lo:hi].reset_index(drop=True)
+            for col in nd.columns:
+                if isinstance(nd[col].dtype, pd.CategoricalDtype):
+                    nd[col] = nd[col].cat.remove_unused_categories()
+            if dm.common is not None:
+                cb = dm.common.evaluate_new_data(nd)
+                for tname, t in dm.common.terms.items():
+                    check_labels(list(t.labels), cb[tname], nd, order, names, f"common term {tname} on batch rows {lo}:{hi}", problems)
+            if dm.group is not None:
+                gb = dm.group.evaluate_new_data(nd)
+                for tname, t in dm.group.terms.items():
+                    check_labels(t.labels, gb[tname], nd, order, names, f"group term {tname} on batch rows {lo}:{hi}", problems, group=True)
     except Exception as e:
-        problems.append(("column-meaning", f"evaluate_new_data on the training frame raised {type(e).__name__}: {e}"))
+        problems.append(("column-meaning", f"evaluate_new_data on rows of the training frame raised {type(e).__name__}: {e}"))
     rdf = dm.response.as_dataframe()
     R = rdf.to_numpy()
     if c["resp"] == "y":
